@@ -76,6 +76,9 @@ func (e analyzerEngine) Gen(prop, tier string, seed uint64, idx int) *runner.Cas
 			c.Tags = append(c.Tags, "name:"+class)
 		}
 		p := gen.PlantedDoc(i, kind, path, method, key)
+		if i%4 == 3 {
+			p = gen.PlantedDocRefSiblings(i, kind, path, method, key)
+		}
 		doc = p.Doc
 		c.Name = "sys/" + p.Name
 		if hostile {
